@@ -1164,6 +1164,19 @@ fn main() {
     let all = sel.iter().any(|s| s == "*");
     let exclude: BTreeSet<String> =
         job["exclude_fns"].as_array().map(|a| a.iter().map(|v| v.as_str().unwrap().to_string()).collect()).unwrap_or_default();
+    // a trait-impl method that shares its key with an inherent method of the same type (e.g.
+    // `impl ContractOverrides for Enumerable { fn transfer }` next to `impl Enumerable { fn transfer }`)
+    // is re-keyed `Type::<Trait>::method`, so that the plain key names the inherent method
+    {
+        let inherent: BTreeSet<String> = c.fns.iter().filter(|f| f.trait_name.is_none() && f.impl_type.is_some()).map(|f| f.key.clone()).collect();
+        for f in c.fns.iter_mut() {
+            if let (Some(tn), Some(ty)) = (&f.trait_name, &f.impl_type) {
+                if !f.in_trait_decl && inherent.contains(&f.key) {
+                    f.key = format!("{}::<{}>::{}", ty, tn, f.sig.ident);
+                }
+            }
+        }
+    }
     // optional per-file disambiguation "file#key"
     let mut selected: Vec<FnRec> = vec![];
     let mut seen = BTreeSet::new();
